@@ -11,12 +11,13 @@ KEYS = [((1,), 0, ''), ((1,), 0, 'n'), ((1,), 1, ''), ((2,), 0, ''), ((0,), 0, '
 KEYS_SMALL = [((1,), 0, ''), ((1,), 1, ''), ((2,), 0, ''), ((1, 2), 0, '')]
 SUBKEYS = [((1,), 0), ((1,), None), ((1, 2), 0)]
 V1, V1B, V2 = 'v1', ('v1b', 'v1'), 'v2'      # v1b == v1 but is a distinct object
+VF = ('FALSY', 'vf')                          # a value that is false in a boolean context
 
 
 def alphabet(small):
     ops = []
     for (req, pi, nm) in (KEYS_SMALL if small else KEYS):
-        for v in ((V1, V1B, None) if small else (V1, V1B, V2, None)):
+        for v in ((V1, V1B, VF, None) if small else (V1, V1B, V2, VF, None)):
             ops.append(('register', 0, req, pi, nm, v))
         for v in ((None, V1) if small else (None, V1, V1B)):
             ops.append(('unregister', 0, req, pi, nm, v))
@@ -113,7 +114,7 @@ def run_history(flavour, ops):
                 reg._generation != gen0:
             # identical re-registration: documented no-op (no invalidation needed, none performed)
             cur = before[0].get(M.Model._k([u.req_pool()[q] for q in op[2]], u.P[op[3]], op[4]))
-            val = u.val(*op[5]) if isinstance(op[5], tuple) else u.val(op[5])
+            val = (u.val(op[5][1], falsy=True) if op[5][0] == 'FALSY' else u.val(*op[5])) if isinstance(op[5], tuple) else u.val(op[5])
             if cur is not None and cur[3] is val:
                 raise Violation('history [%s]: re-registering the identical object was not a no-op (generation bumped)' % hist,
                                 signature='C09:identical-reregistration-not-noop')
@@ -167,7 +168,7 @@ HARNESSES = [
             tiers=dict(quick=dict(budget_s=150, parts=16, params=dict(L=2)),
                        thorough=dict(budget_s=3000, parts=16, params=dict(L=2, flavour='verifying'))),
             encoded=_ENC,
-            bounds='one registry; every history of <=2 ops from 69: register of v1 / v1b (== v1, distinct) / v2 / None and unregister of any / v1 / '
+            bounds='one registry; every history of <=2 ops from 77: register of v1 / v1b (== v1, distinct) / v2 / a falsy value / None and unregister of any / v1 / '
                    'v1b on 8 keys (arity 0-2, None as required, two provided, named), subscribe/unsubscribe on 3 keys (incl. handlers), rebuild',
             outside='histories longer than the bound; _provided reference counts are only required never to reach zero early (over-counts are unobservable)',
             oracle=_OR),
@@ -175,7 +176,7 @@ HARNESSES = [
             tiers=dict(quick=dict(budget_s=150, parts=16, params=dict(L=3, small=True)),
                        thorough=dict(budget_s=3000, parts=16, params=dict(L=4, small=True))),
             encoded=_ENC,
-            bounds='every history of <=3 (thorough 4) ops from a 25-op alphabet (4 keys incl. an arity-2 one, one subscription key, rebuild): covers '
+            bounds='every history of <=3 (thorough 4) ops from a 29-op alphabet (4 keys incl. an arity-2 one, one subscription key, rebuild): covers '
                    'overwrite-then-unregister, pruning of emptied nested containers while sibling keys remain, rebuild after mixed histories',
             oracle=_OR),
 ]
